@@ -58,9 +58,21 @@ def canon_module(m, depth=0):
     return tuple(items)
 
 
+import os as _os
+REMEMBER_OPS = _os.environ.get("KMC_BFS_REMEMBER_OPS", "1") != "0"
+
+
 def explore(build, ops, depth, canon, on_transition, stats=None):
     """ops: list of (name, fn(system) -> observation). on_transition(history_names, system, observation_or_exception).
     Returns dict(states, transitions, max_depth)."""
+    # the key of a state is its canonical form PLUS the set of operations applied so far: a memo kept where the canonical form cannot see it (a
+    # functools cache on a method, a module-level table) distinguishes two histories only through the operations they contain, so histories
+    # are merged only when they agree on both (finer than necessary for correct code - it costs states, never soundness)
+    _canon0 = canon
+    _applied = [frozenset()]
+
+    def canon(system):  # noqa: F811
+        return (_canon0(system), _applied[0]) if REMEMBER_OPS else _canon0(system)
     seen = {canon(build())}
     frontier = [()]
     transitions = 0
@@ -80,6 +92,7 @@ def explore(build, ops, depth, canon, on_transition, stats=None):
                 obs = e
             transitions += 1
             names = tuple(ops[j][0] for j in hist) + (name,)
+            _applied[0] = frozenset(hist) | {i}
             k = canon(system)
             on_transition(names, system, obs)
             maxd = max(maxd, len(names))
